@@ -867,3 +867,70 @@ Proof.
   - intros a IH. cbn [parsed codec]. simpl. rewrite IH. reflexivity.
   - intros a IH. cbn [parsed codec]. simpl. rewrite IH. reflexivity.
 Qed.
+
+(* ------------------------------------------------------------------ python lists <-> CQL names *)
+Definition cname (fz : bool) (t : ty) : str := cql_name_gen (lit "vector") comma_sp fz t.
+Definition pe := py_print_elem.
+
+Lemma pe_list : forall first l, pe first (PList l) = lit "<" ++ py_print_elems l ++ lit ">".
+Proof. reflexivity. Qed.
+
+Definition shape (fz : bool) (t : ty) : Prop :=
+  exists h tl, to_py fz t = PStr h :: tl /\ h ++ flat_map (pe false) tl = cname fz t.
+
+Lemma shape_print : forall fz t L, shape fz t -> py_print_elems (to_py fz t ++ L) = cname fz t ++ flat_map (pe false) L.
+Proof.
+  intros fz t L (h & tl & E & H). rewrite E. cbn [app py_print_elems]. fold pe. rewrite flat_map_app.
+  simpl. rewrite <- H. rewrite <- app_assoc. reflexivity.
+Qed.
+
+Lemma shape_tail : forall fz t, shape fz t -> flat_map (pe false) (to_py fz t) = comma_sp ++ cname fz t.
+Proof.
+  intros fz t (h & tl & E & H). rewrite E. cbn [flat_map]. rewrite <- H. unfold pe at 1. simpl. reflexivity.
+Qed.
+
+Lemma shape_seq : forall fz ts, Forall (shape fz) ts ->
+  py_print_elems (flat_map (to_py fz) ts) = join comma_sp (map (cname fz) ts).
+Proof.
+  intros fz ts H. destruct H as [|x l Hx Hl]; [reflexivity|].
+  cbn [flat_map map]. rewrite shape_print by assumption. rewrite join_cons. f_equal.
+  induction Hl as [|y l' Hy Hl' IH]; [reflexivity|].
+  cbn [flat_map map]. rewrite flat_map_app. rewrite shape_tail by assumption. rewrite IH. reflexivity.
+Qed.
+
+Lemma wrap_shape : forall (fz : bool) x name,
+  (exists h tl, x = PStr h :: tl /\ h ++ flat_map (pe false) tl = name) ->
+  exists h tl, (if fz then [PStr frozen_kw; PList x] else x) = PStr h :: tl /\
+               h ++ flat_map (pe false) tl = (if fz then lit "frozen<" ++ name ++ lit ">" else name).
+Proof.
+  intros fz x name (h & tl & E & H). destruct fz.
+  - exists frozen_kw, [PList x]. split; [reflexivity|]. cbn [flat_map]. rewrite pe_list. rewrite E.
+    cbn [py_print_elems]. fold pe. simpl. rewrite H. rewrite app_nil_r. reflexivity.
+  - exists h, tl. auto.
+Qed.
+
+Lemma shape_ty : forall fz t, shape fz t.
+Proof.
+  intros fz. apply ty_ind2; unfold shape, cname.
+  - intros s. exists (cql_simple s), []. split; [reflexivity|]. apply app_nil_r.
+  - intros a IH. exists (lit "list"), [PList (to_py fz a)]. split; [reflexivity|]. cbn [flat_map]. rewrite pe_list.
+    rewrite <- (app_nil_r (to_py fz a)). rewrite shape_print by assumption. simpl. rewrite !app_nil_r. reflexivity.
+  - intros a IH. exists (lit "set"), [PList (to_py fz a)]. split; [reflexivity|]. cbn [flat_map]. rewrite pe_list.
+    rewrite <- (app_nil_r (to_py fz a)). rewrite shape_print by assumption. simpl. rewrite !app_nil_r. reflexivity.
+  - intros k v IHk IHv. exists (lit "map"), [PList (to_py fz k ++ to_py fz v)]. split; [reflexivity|]. cbn [flat_map]. rewrite pe_list.
+    rewrite shape_print by assumption. rewrite shape_tail by assumption. simpl. rewrite !app_nil_r. rewrite <- !app_assoc. reflexivity.
+  - intros ts IH. cbn [to_py cql_name_gen]. apply wrap_shape.
+    exists (lit "tuple"), [PList (flat_map (to_py fz) ts)]. split; [reflexivity|]. cbn [flat_map]. rewrite pe_list.
+    rewrite shape_seq by assumption. simpl. rewrite !app_nil_r. reflexivity.
+  - intros ks n fn ft IH. cbn [to_py cql_name_gen]. apply wrap_shape. exists n, []. split; [reflexivity|]. apply app_nil_r.
+  - intros a d IH. exists (lit "vector"), [PList (to_py fz a ++ [PStr d])]. split; [reflexivity|]. cbn [flat_map]. rewrite pe_list.
+    rewrite shape_print by assumption. simpl. rewrite !app_nil_r. rewrite <- !app_assoc. reflexivity.
+  - intros a IH. cbn [to_py cql_name_gen]. apply wrap_shape. exact IH.
+  - intros a IH. exact IH.
+Qed.
+
+Theorem print_to_py : forall fz t, python_to_cqltype (to_py fz t) = cname fz t.
+Proof.
+  intros fz t. unfold python_to_cqltype. rewrite <- (app_nil_r (to_py fz t)).
+  rewrite shape_print by apply shape_ty. simpl. apply app_nil_r.
+Qed.
